@@ -36,6 +36,11 @@ def cases():
     C.append(('channel-manual-error-c0', dict(kind='channel', down=1, up=2, pub='manual', cancel_after=0, credit='max', ending='error')))
     C.append(('channel-manual-error-c1', dict(kind='channel', down=2, up=2, pub='manual', cancel_after=1, credit='one', ending='error')))
     C.append(('stream-manual-error-c1', dict(kind='stream', down=2, pub='manual', cancel_after=1, credit='one', ending='error')))
+    # back-pressure sources whose elements become available one per application event: CANCEL arrives with credit to spare
+    for pub in ('rx3bpq', 'rx4bpq'):
+        C.append(('stream-%s-c1' % pub, dict(kind='stream', down=4, pub=pub, cancel_after=1, credit='max', ending='complete')))
+        C.append(('channel-%s-c1' % pub, dict(kind='channel', down=4, up=0, pub=pub, cancel_after=1, credit='max', ending='complete')))
+        C.append(('stream-%s-c0' % pub, dict(kind='stream', down=3, pub=pub, cancel_after=0, credit='max', ending='complete')))
     # cancel() called from inside on_next ("take(k)"), with elements possibly following in the same read
     for pub in ('manual', 'gen', 'agen', 'sync'):
         C.append(('stream-%s-cancel-in-on_next1' % pub, dict(kind='stream', down=3, pub=pub, cancel_after=101, credit='max', ending='flag' if pub != 'manual' else 'complete')))
